@@ -286,8 +286,17 @@ def measured_cases(draw):
     n = draw(st.integers(2, 4))
     names = ["a", "b", "c", "d"][:n]
     units = []
-    for a in names:
+    nested = draw(st.booleans())
+    for i, a in enumerate(names):
+        if i == len(names) - 1 and len(names) > 2 and draw(st.integers(0, 3)) == 0:
+            continue        # an annotator without any unit (it still counts in the statistics of the reference)
         t = draw(gen.dyadic(0, 6))
+        if nested and i == 0:
+            # a long unit with several short units nested inside it: "previous unit" and "latest end" differ here
+            units.append([a, t, t + 100.0, "A"])
+            for j in range(draw(st.integers(2, 4))):
+                units.append([a, t + 10.0 * (j + 1), t + 10.0 * (j + 1) + draw(gen.dyadic(1, 6)), "B"])
+            t += 110.0
         for _ in range(draw(st.integers(1, 8))):
             d = draw(gen.dyadic(0.5, 10))
             units.append([a, t, t + d, draw(st.sampled_from(["A", "A", "A", "B", "B", "C"]))])
@@ -295,6 +304,7 @@ def measured_cases(draw):
     gt = None
     if n > 2 and draw(st.booleans()):
         gt = sorted(draw(st.permutations(names))[:draw(st.integers(2, n))])
+    names = list(names)
     pre = []
     if draw(st.integers(0, 2)) == 0:
         # a substantial edit: many long units with a new dominant category on one annotator
